@@ -100,7 +100,7 @@ def run(cmd, a, out, suffix):
     elif cmd == "split":
         from whatshap.cli.split import run_split
 
-        run_split(a["bam"], a["list"], output_h1=p("h1.bam"), output_h2=p("h2.bam"), output_untagged=p("un.bam"), read_lengths_histogram=p("hist.tsv"))
+        run_split(a["bam"], a["list"], output_h1=p("h1.bam"), output_h2=p("h2.bam"), output_untagged=p("un.bam"), read_lengths_histogram=p("hist.tsv"), **a.get("kw", {}))
     elif cmd == "find_snv":
         from whatshap.cli.find_snv_candidates import run_find_snv_candidates
 
